@@ -131,6 +131,11 @@ class C19(core.Check):
             (False, R, [(8101, 0, [(200, None, b"one", 0, 0, [], False, 1), (200, None, b"two", 1, 0, [], False, 2), (200, None, b"three", 0, 0, [], False, 3)])], 0),
             (False, R, [(8101, 0, [(200, None, b"one", 0, 1, [10, 25, 26, 40, 51], False, 10), (302, (0, 8101, b"/r0"), b"", 0, 0, [30], False, 2),
                                    (200, None, b"landed", 0, 0, [], False, 2), (404, None, b"three", 1, 0, [27], True, 3)])], 1),
+            # servers on non-default ports plus one on the scheme's default port; Locations with port, WITHOUT port (= default port), scheme-relative
+            (False, R, [(8101, 0, [(302, (0, 80, b"/final", 1), b"", 0, 0, [], False), ok(b"two-8101"), ok(b"three-8101")]), (80, 0, [ok(b"ONE-80"), ok(b"x")])], 0),
+            (False, R, [(8101, 0, [(301, (0, 80, b"/a?z=1", 2), b"", 0, 0, [], False), (302, (0, 8102, b"/b", 2), b"", 0, 0, [], False), ok(b"three")]),
+                        (8102, 0, [ok(b"TWO-8102")]), (80, 0, [(302, (0, 8101, b"/back"), b"", 0, 0, [], False), ok(b"x")])], 0),
+            (True, R, [(8101, 1, [(302, (1, 443, b"/s", 1), b"", 0, 0, [], False), ok(b"two"), ok(b"three")]), (443, 1, [(307, (1, 8101, b"/t"), b"", 0, 0, [], False), ok(b"S")])], 0),
             # bodies announced as JSON that are not UTF-8 / not JSON: the entry still arrives and the queue moves on
             (False, R, [(8101, 0, [(200, None, b'{"a":"\xe9t\xe9"}', 0, 0, [], False, 0, 1), (200, None, b'{"a":"\xc3', 1, 0, [], False, 0, 2),
                                    (404, None, '{"a":"é"}'.encode("utf-16"), 0, 0, [], False, 1, 3)])], 0),
@@ -169,10 +174,16 @@ class C19(core.Check):
             secure = rng.random() < 0.25
             nserv = rng.choice([1, 1, 2, 2, 3])
             ports = PORTS[:nserv]
+            if rng.random() < 0.35:
+                # one more server on the DEFAULT port of its scheme (80 plain / 443 TLS): only such a server can be named by a Location without a port
+                ports = ports + [443 if rng.random() < (0.7 if secure else 0.2) else 80]
             tls = {}
             for p in ports:
                 tls[p] = (rng.random() < 0.85) if secure else (rng.random() < 0.15)
             tls[ports[0]] = secure
+            for p in ports:
+                if p in (80, 443):
+                    tls[p] = p == 443
             m = rng.choice([1, 2, 3, 3, 4, 6])
             reqs = []
             heads = rng.random() < 0.3          # a queue with HEAD requests
@@ -208,6 +219,13 @@ class C19(core.Check):
                                 la[rng.choice(keys + ["loc", "z"])] = qtext()
                             target += b"?" + "&".join(quote_plus(a) + "=" + quote_plus(b) for a, b in la.items()).encode("ascii")
                         loc = (int(tsec), tp, target) if rng.random() > 0.06 else None      # rarely a 3xx WITHOUT Location: cannot be followed
+                        if loc is not None:
+                            # the same target written in other forms: without the port when it is the scheme's default, scheme-relative when plain http
+                            k = rng.random()
+                            if tp == (443 if tsec else 80) and k < 0.7:
+                                loc += (1,)
+                            elif not tsec and k < 0.85:
+                                loc += (2,)
                         rcount[0] += 1
                     elif rng.random() < pnobody:
                         status = rng.choice([204, 304, 304, 102])
@@ -470,6 +488,13 @@ class C19(core.Check):
                         f.append("json-typed-body:not-utf-8")
                 if len(r) > 7 and r[7]:
                     f.append("interim-100-continue=" + ("1" if r[7] == 1 else ("2-3" if r[7] <= 3 else "many")) + (":piecewise" if r[5] else ":one-read"))
+        for sv in served:
+            if sv[0] in REDIRECTS and sv[1]:
+                f.append("location:to-default-port" if sv[1][1] in (80, 443) else "location:to-other-port")
+        for _, _, sc in servers:
+            for r in sc:
+                if r[1] is not None and len(r[1]) > 3 and r[1][3]:
+                    f.append("location-form:" + ("absolute-without-port" if r[1][3] == 1 else "scheme-relative"))
         if len({w[0] for w in wire}) > 1:
             f.append("multi-server")
         for w, sv in zip(wire, served):
